@@ -37,7 +37,7 @@ prop("C01", "exploration",
      "each run draws (source, chunker configuration, compression, hash length, buffered-chunks, metadata), a writer (bita compress from a file / from stdin, bitar create_archive), "
      "a cloner (bita clone local / HTTP, library clone local / HTTP) and, per command, a schedule of the blocking pool (eagerness 0/10/50/90/100 %, FIFO or drawn order), "
      "read fragmentation at the syscall seam / SimSource / stdin / HTTP body. One run in twelve is the fault-injecting configuration: a read of the source fails with EIO (drawn read call of the file, "
-     "drawn byte count on stdin / the library reader) and compress must not report success. Otherwise no faults. Oracle: every command succeeds; the independent decoder reads the archive, finds the true size and "
+     "drawn byte count on stdin / the library reader) and compress must not report success; one in fourteen fails a write of compress (ENOSPC/EIO/EDQUOT on the temporary file or the archive, biased to the last write): success only with a complete archive. One file input in twelve is a block device (stat size 0). Otherwise no faults. Oracle: every command succeeds; the independent decoder reads the archive, finds the true size and "
      "Blake2b-512 and unpacks it to the source; the clone output equals the source. Non-trivial: the source has at least two chunks; distinct: by trace hash (all scheduler decisions, reads, "
      "requests) combined with chunk count, writer and cloner.",
      {"quick": {"runs": 12000, "max_secs": 100}, "thorough": {"runs": 700000, "max_secs": 1200}},
@@ -72,7 +72,7 @@ prop("C13", "exploration",
      "Non-trivial: at least two chunks and a seed or in-place prior output; distinct: trace hash + shape (incl. number of writes).",
      {"quick": {"runs": 12000, "max_secs": 100}, "thorough": {"runs": 600000, "max_secs": 1200}})
 prop("C11", "exploration",
-     "C01's compress runs (CLI from file / stdin, library; all schedules; metadata maps incl. empty and binary values). Oracle: the independent decoder checks magic, LE dictionary size, dictionary decodes, chunk-data offset == header length, "
+     "C01's compress runs (CLI from file / stdin, library; all schedules; metadata maps incl. empty and binary values); one run in fourteen the input file grows while compress reads it (another process appends at a scheduled moment) and the archive is held against what was actually read. Oracle: the independent decoder checks magic, LE dictionary size, dictionary decodes, chunk-data offset == header length, "
      "Blake2b-512 trailer, file length == end of the last stored chunk, descriptors == the unique chunks of the reference chunker's chunk list in order of first occurrence (hash prefix, size), stored back-to-back from 0, stored size <= source size, "
      "every payload decodes (raw iff sizes equal) to a chunk with that hash, rebuild order == the chunk sequence, recorded size/checksum/parameters/hash length/compression/metadata == requested; bitar's Archive accessors and bita info --metadata-key report the same. "
      "Non-trivial: at least two chunks; distinct: trace hash + (chunks, unique chunks, metadata entries).",
@@ -98,7 +98,7 @@ prop("C07", "exploration",
      {"quick": {"runs": 12000, "max_secs": 100}, "thorough": {"runs": 600000, "max_secs": 1200}})
 prop("C08", "fault_enumeration",
      "a random content, a drawn list of 1..10 ranges (adjacent runs, gaps, unordered, repeated/overlapping; sizes 1 B .. 70 KB, up to 3 MiB in the thorough tier) read through read_chunks or read_at. "
-     "Local: IoReader over a SimFile with drawn read fragmentation (1 byte .. whole), Pending at any poll, early EOF at a drawn offset. HTTP: HttpReader against a server that is correct when it answers, with a failure script drawn per request "
+     "Local: IoReader over a SimFile with drawn read fragmentation (1 byte .. whole), Pending at any poll (reads and seeks), early EOF at a drawn offset; a third of the readers have been used before (position anywhere), a sixth of the lists start at byte 0. HTTP: HttpReader against a server that is correct when it answers, with a failure script drawn per request "
      "(refused connection; body cut after c bytes with c drawn from {uniform, 0, all, all-1, first 8}; early EOF; stall + request timeout), retry budget 0..3, retry delay {0,1,30} s of virtual time. "
      "Oracle over the recorded history: items are a prefix of the requested ranges' bytes in order, then at most one error, then nothing; a run with f <= R failures completes, f > R or an early EOF yields an error; "
      "every (re)request's Range starts at the first byte not yet delivered and ends at the run's end; retry delays elapse in virtual time; the run finishes within the step budget. "
@@ -114,8 +114,8 @@ prop("C14", "exploration",
      ["header bit flips avoid the upper five bytes of the dictionary-size field (they make the reader attempt a petabyte allocation: C15's finding, fatal to a worker)"])
 prop("C16", "exploration",
      "2/3 of runs: bita clone in all modes of the clone family (plain, seed files, stdin seed, in place, local, HTTP, +-verify-output, existing output with --force-create, faked block device) observed at the syscall seam: "
-     "(one in eight with the existing output also named as a --seed, under its own or another spelling; init_log runs before each command, so a log sink that opens a file is seen too) every open with O_WRONLY/O_RDWR/O_CREAT/O_TRUNC/O_APPEND names the output path, no unlink/rename/mkdir, no truncate of another file, and the listing (names, sizes, Blake2) of the sandbox changed only at the output path. "
-     "1/3: bita compress (file / stdin, +-force, output names with and without extension and in a subdirectory): only the archive and its '.tmp' sibling are opened for writing, only that temp file is removed, and a successful run leaves exactly one new file. "
+     "(one in eight with the existing output also named as a --seed, under its own or another spelling; one in ten with a second hard link on the existing output; one in sixteen into a directory that does not exist; init_log runs before each command, so a log sink that opens a file is seen too) every open with O_WRONLY/O_RDWR/O_CREAT/O_TRUNC/O_APPEND names the output path, no unlink/rename/mkdir, no truncate of another file, and the listing (names, sizes, Blake2) of the sandbox changed only at the output path. "
+     "1/3: bita compress (file / stdin, +-force, output names with and without extension, in a subdirectory, with bytes that are not valid UTF-8; one in five repeated with --force-create over a planted stale temporary file): only the archive and its '.tmp' sibling are opened for writing, only that temp file is removed, and a successful run leaves exactly one new file. "
      "Non-trivial: at least three file-system events; distinct: trace hash + shape.",
      {"quick": {"runs": 8000, "max_secs": 100}, "thorough": {"runs": 400000, "max_secs": 1200}},
      ["files opened through raw syscalls (none in the CLI paths; the tempfile crate in bitar's library writer) would not be seen by the link-time seam"])
@@ -124,7 +124,7 @@ prop("C04", "fault_enumeration",
      "fault kind: corruption of stored bytes after creation, and lying servers. Mode A (1/3 of runs): a small archive (source <= 400 B, hash length >= 8, library writer) and EVERY single-bit flip (except the upper five bytes of the dictionary-size field) and EVERY truncation length of it "
      "(exhaustive when the archive is <= 1400 B / 4096 B in the thorough tier, else 512 + 128 sampled), each cloned through the library. Mode B (2/3): one scenario of the clone family (CLI or library, seeds, in place, local or HTTP, +-verify-output) and one drawn corruption: "
      "bit flip (anywhere / header / payload), multi-byte overwrite, swap of two stored chunk payloads, trailing garbage, truncation, header re-encoded with one changed field and a recomputed checksum while --verify-header carries the original, "
-     "a server answering one request with a flipped bit / an error page of the requested length / a short body, a server going silent mid-body with --http-timeout set, a header re-encoded with one changed field and the file cut off inside the stored header checksum, --verify-header off by one bit, --verify-header right (control). "
+     "a server answering one request with a flipped bit / an error page of the requested length / a short body, a server going silent mid-body with --http-timeout set, a server that serves the pinned archive for the first requests and another valid archive afterwards, a header re-encoded with one changed field and the file cut off inside the stored header checksum, the pinned checksum planted in (or removed from) the source-checksum field of a re-encoded header, --verify-header off by one bit, --verify-header right (control). "
      "Oracle: the clone does not exit 0, or the output equals the source; a change inside the header is never followed by success and (CLI) the output path is never opened; with --verify-header X success implies the real header checksum is X; "
      "StepBudget/Deadlock are violations, panics are counted and left to C15. Non-trivial: > 100 corruptions tried (A) / any corruption other than the control (B); distinct: trace hash + shape.",
      {"quick": {"runs": 3000, "max_secs": 100}, "thorough": {"runs": 200000, "max_secs": 1500}},
@@ -133,7 +133,7 @@ prop("C04", "fault_enumeration",
 prop("C17", "exploration",
      "archives are written by the independent encoder, never by bita: drawn source and chunker parameters (chunk list from the reference chunker, or 1/8 arbitrary cuts), current or legacy magic, chunk-data offset = header end + slack (0, 1..64, 1..5000), "
      "stored chunks ascending / descending / permuted with no / some / all gaps, trailing bytes, per-chunk raw or compressed with the brotli / zstd / lzma crates (never compressed with stored size == source size), unknown protobuf fields at every level, "
-     "packed / split-packed / unpacked rebuild order, explicit default values, hash length 4..64, zero chunks, foreign version strings, metadata. Oracle: bitar opens it and every accessor reports the encoder's inputs; then the whole clone family "
+     "packed / split-packed / unpacked rebuild order, explicit default values, hash length 4..64, zero chunks, foreign version strings, metadata, recorded compression levels bita would never write (0, 12, 2^32-ish), RollSum windows larger than the maximum chunk size; one run in forty a header-only archive declaring a source of many GiB. Oracle: bitar opens it and every accessor (incl. compressed_size, header_checksum, iter_source_chunks, metadata_value, build_source_index offsets) reports the encoder's inputs; then the whole clone family "
      "(CLI / library, local / HTTP, seeds, in place, block device) must succeed with output == source; over HTTP the requests are the maximal adjacent runs for this layout. Non-trivial: at least two unique chunks; distinct: the encoding choices + chunk count.",
      {"quick": {"runs": 12000, "max_secs": 100}, "thorough": {"runs": 600000, "max_secs": 1200}},
      ["'conforming' = what header.rs' table and chunk_dictionary.proto (incl. its comments: descriptors in order of first occurrence) document; descriptor order is therefore not permuted, storage order is"])
